@@ -33,6 +33,10 @@ var verifC01Src = []string{
 	"select * from a; select * from b where 1 / @z > 0;",
 	// 8: created file dropped by ROLLBACK, created again
 	"create table `new.csv` (c1); insert into `new.csv` values ('x'); rollback; create table `new.csv` (c2); select 1 / @z;",
+	// 9: the final commit itself fails (an LTSV value with a TAB cannot be encoded) after a created file was written
+	"create table `new.csv` (c1); insert into `new.csv` values ('x'); insert into a values (2,'b'); update l set v = @t;",
+	// 10: data-changing statements that change nothing: the file is not one the transaction changed
+	"update b set k = 1 where k = 99; delete from b where k = 99; insert into b select k from b where k = 99; select 1 / @z;",
 }
 var verifC01Progs [][]parser.Statement
 var verifC01Count parser.SelectQuery
@@ -51,7 +55,8 @@ func VerifC01Setup() {
 // control files remain.  The failure point is chosen by the data (@z).
 func VerifC01Procedures() {
 	verifFileWrite("a.csv", "id,v\n1,a\n")
-	verifFileWrite("b.csv", "k\n7\n")
+	verifFileWrite("b.csv", verifC01B)
+	verifFileWrite("l.ltsv", "k:7\tv:o\n")
 	tx := verifNewTx()
 	tx.Flags.Quiet = true
 	tx.AutoCommit = true
@@ -59,6 +64,11 @@ func VerifC01Procedures() {
 	scope := proc.ReferenceScope
 	z := int64(verifChoice("z", 2))
 	verifVar(scope, "z", value.NewInteger(z))
+	if z == 0 {
+		verifVar(scope, "t", value.NewString("p\tq"))
+	} else {
+		verifVar(scope, "t", value.NewString("pq"))
+	}
 	pi := verifChoice("program", len(verifC01Src))
 	flow, err := proc.Execute(verifCtx(), verifC01Progs[pi])
 	// what cli.commandAction defers
@@ -68,8 +78,12 @@ func VerifC01Procedures() {
 	failed := err != nil
 	verifObserveBool("failed", failed)
 	verifAssert("the run fails exactly when the data says so", failed == (z == 0 && pi != 2))
-	wantA, wantNew, newExists := "id,v\n1,a\n", "", false
+	wantA, wantNew, newExists, wantL := "id,v\n1,a\n", "", false, "k:7\tv:o\n"
 	switch pi {
+	case 9:
+		if !failed {
+			wantA, wantNew, newExists, wantL = "id,v\n1,a\n2,b\n", "c1\nx\n", true, "k:7\tv:pq\n"
+		}
 	case 0:
 		if !failed {
 			wantA, wantNew, newExists = "id,v\n1,a\n2,b\n", "c1\nx\n", true
@@ -117,16 +131,21 @@ func VerifC01Procedures() {
 	if newExists {
 		verifAssert("created file holds the last committed state", verifFileRead("new.csv") == wantNew)
 	}
-	verifAssert("a file that was only read is byte-identical", verifFileRead("b.csv") == "k\n7\n")
+	verifAssert("the LTSV table holds the last committed state", verifFileRead("l.ltsv") == wantL)
+	verifAssert("a file the transaction never changed is byte-identical", verifFileRead("b.csv") == verifC01B)
 	verifAssert("no lock, rlock or temp files remain", verifFileList() == listOf(newExists))
 	verifReach("end")
 }
 
+// b.csv is deliberately not in the form csvq itself writes (quoted cell, no ending line break): a
+// rewrite of the unchanged table would change its bytes.
+const verifC01B = "k\n\"7\""
+
 func listOf(newExists bool) string {
 	if newExists {
-		return "a.csv\nb.csv\nnew.csv"
+		return "a.csv\nb.csv\nl.ltsv\nnew.csv"
 	}
-	return "a.csv\nb.csv"
+	return "a.csv\nb.csv\nl.ltsv"
 }
 
 // verifCancelCtx: a context that is cancelled (SIGINT / SIGTERM reach csvq as context cancellation)
@@ -162,7 +181,8 @@ func (c *verifCancelCtx) Value(key interface{}) interface{} { return nil }
 // files exist only with committed contents, the read-only file is untouched, nothing is left locked.
 func VerifC01Interrupted() {
 	verifFileWrite("a.csv", "id,v\n1,a\n")
-	verifFileWrite("b.csv", "k\n7\n")
+	verifFileWrite("b.csv", verifC01B)
+	verifFileWrite("l.ltsv", "k:7\tv:o\n")
 	tx := verifNewTx()
 	tx.Flags.Quiet = true
 	tx.AutoCommit = true
@@ -200,7 +220,7 @@ func VerifC01Interrupted() {
 		}
 		verifAssert("other table untouched", a == "id,v\n1,a\n")
 	}
-	verifAssert("a file that was only read is byte-identical", verifFileRead("b.csv") == "k\n7\n")
+	verifAssert("a file that was only read is byte-identical", verifFileRead("b.csv") == verifC01B)
 	verifAssert("no lock, rlock or temp files remain", verifFileList() == listOf(newExists))
 	verifObserveBool("failed", err != nil)
 	verifReach("end")
